@@ -304,7 +304,7 @@ finding("C07-join-rewritten-to-intersect", "C07", ["C01", "C05", "C09"],
  None)
 
 finding("C07-distinct-on-computed-sort-key", "C07", ["C09"],
- "a dialect with DISTINCT ON (postgres, duckdb, ...), `group k (sort {..} | take 1)` with a computed sort key or a computed group key (also when the group-take ends a let-table that is read elsewhere): the binder reports `ORDER BY:` / `SELECT: column _expr_N is not in scope`",
+ "a dialect with DISTINCT ON (postgres, duckdb, ...), `group k (sort {..} | take 1)` with a computed sort key or a computed group key (also when the group-take ends a let-table that is read elsewhere, and when a following `group {all columns} (take 1)` merges it into a plain `SELECT DISTINCT .. ORDER BY k, _expr_N`): the binder reports `ORDER BY:` / `SELECT: column _expr_N is not in scope`",
  "`from t | select {a, b, c} | group {a} (sort {(b * 0), c} | take 1)` under postgres: `SELECT DISTINCT ON (a) a, c, b FROM t ORDER BY a, _expr_0, c`: the computed sort key is referred to by its generated alias, which this SELECT never defines. With a computed group key at the end of a let-table (`select {c9 = c7 ** 0 >= 0.25, c6} | group {c9} (sort {-c6} | take 1)`) the reader re-evaluates the key expression over `_expr_0`, which the CTE does not expose.",
  None)
 
@@ -388,7 +388,7 @@ finding("C08-nul-character", "C08", [],
  None)
 
 k = json.load(open(os.path.join(V, "known_findings.json")))
-REMOVED = {"C11-column-order-hash-dependent", "C11-error-text-hash-dependent", "C02-double-negation", "C06-sorted-let-aggregate-key-recomputed", "C11-helper-column-qualifier-hash-dependent"}  # repaired by a fix: commit (see "fixed")
+REMOVED = {"C12-panic-range-of-ranges-overflow", "C11-column-order-hash-dependent", "C11-error-text-hash-dependent", "C02-double-negation", "C06-sorted-let-aggregate-key-recomputed", "C11-helper-column-qualifier-hash-dependent"}  # repaired by a fix: commit (see "fixed")
 keep = [f for f in k["findings"] if f["id"] not in {x["id"] for x in FINDINGS} and f["id"] not in REMOVED]
 k["findings"] = keep + FINDINGS
 json.dump(k, open(os.path.join(V, "known_findings.json"), "w"), indent=1, ensure_ascii=False)
